@@ -17,7 +17,7 @@ CONFIGS = [
 ]
 
 
-def solve(smt_body, timeout, want_model_for=()):
+def solve(smt_body, timeout, want_model_for=(), crosscheck=False):
     """-> (status, solver name, model dict name->int | None, seconds). status in sat/unsat/unknown."""
     text = '(set-logic ALL)\n(set-option :produce-models true)\n' + smt_body + '\n(check-sat)\n'
     if want_model_for:
@@ -35,6 +35,7 @@ def solve(smt_body, timeout, want_model_for=()):
             except OSError:
                 pass
         answer = ('unknown', None, None)
+        verdicts = []
         live = list(procs)
         while live and time.time() - t0 < timeout:
             for name, p in list(live):
@@ -48,6 +49,15 @@ def solve(smt_body, timeout, want_model_for=()):
                         model = None
                         if first == 'sat':
                             model = _parse_values(out)
+                        if crosscheck:
+                            verdicts.append((first, name, model))
+                            if len(verdicts) >= 2 or not live:
+                                kinds = set(v[0] for v in verdicts)
+                                answer = ('disagree', '+'.join(v[1] for v in verdicts), None) if len(kinds) > 1 else \
+                                    (verdicts[0][0], '+'.join(v[1] for v in verdicts), verdicts[0][2])
+                                live = []
+                                break
+                            continue
                         answer = (first, name, model)
                         live = []
                         break
@@ -55,6 +65,8 @@ def solve(smt_body, timeout, want_model_for=()):
                 time.sleep(0.02)
                 continue
             break
+        if crosscheck and answer[0] == 'unknown' and verdicts:
+            answer = (verdicts[0][0], verdicts[0][1] + ' (single)', verdicts[0][2])
         return answer + (time.time() - t0,)
     finally:
         for name, p in procs:
